@@ -222,18 +222,19 @@ func (r *Runner) exec(a Action) {
 			r.feat("fresh-server-joins")
 		}
 		if in := r.live(r.resolve(a.Srv)); in != nil {
+			// (GetConfiguration().Index() is always 0 in this version of the library:
+			// the index a careful caller would name is read off the server's log)
 			var prev uint64
+			w.Mu.Lock()
+			_, cur := sim.LatestCfgInDisk(in.Srv.Disk, false)
+			w.Mu.Unlock()
 			switch a.Arg {
 			case 1: // current
-				f := in.R.GetConfiguration()
-				if f.Error() == nil {
-					prev = f.Index()
-				}
-			case 2: // stale
-				prev = 1
-				f := in.R.GetConfiguration()
-				if f.Error() == nil && f.Index() > 1 {
-					prev = f.Index() - 1
+				prev = cur
+			case 2: // stale: the configuration before, or one that does not exist yet
+				prev = cur + 3
+				if cur > 1 && a.Dt%2 == 0 {
+					prev = cur - 1
 				}
 			}
 			r.doMembership(in, a.Op, a.N%len(r.ids), prev)
